@@ -51,6 +51,8 @@ def fee_tokens(fee):
 
 
 class StubBroker(object):
+    current_dt = None       # set by run_sizer: the broker's clock does not move between the calls of one case
+
     def __init__(self, equity, fee):
         self.equity = equity
         self.fee_model = make_fee(fee)
@@ -131,8 +133,8 @@ def gen_sizer_case(rng, kind):
             items[0][1], items[-1][1] = 0.5, -0.5
     if kind == 'dw':
         param = rng.choice([0.0, 0.05, 0.025, 0.15, 0.5, 1.0, rng.random()])
-        if rng.random() < 0.05:
-            param = rng.choice([-0.1, 1.5])
+        if rng.random() < 0.08:
+            param = rng.choice([-0.1, 1.5, 1.0 + 1e-9, -1e-12, 1.0000000000000002, -5e-324, 1.0 + 1e-7])
         # floor boundary: make the allocation an exact multiple of the price
         if items and fee[0] == 'Z' and rng.random() < 0.3:
             S = sum(i[1] for i in items)
@@ -144,8 +146,8 @@ def gen_sizer_case(rng, kind):
                     equity = k * i0[2] * S / i0[1]
     else:
         param = rng.choice([1.0, 1.5, 2.0, 0.5, 5.0, 0.01, rng.uniform(0.1, 4)])
-        if rng.random() < 0.05:
-            param = rng.choice([0.0, -1.0])
+        if rng.random() < 0.08:
+            param = rng.choice([0.0, -1.0, -1e-12, 1e-12, -0.0])
         if items and rng.random() < 0.25:
             # integral dollar amounts
             equity = float(rng.randint(1, 10 ** 6))
@@ -183,6 +185,7 @@ def gen_sizer_case(rng, kind):
             hist.append(h)
         case['history'] = hist
         case['same_dict'] = rng.random() < 0.6
+        case['equity_moves'] = rng.random() < 0.5
     return case
 
 
@@ -207,7 +210,7 @@ def gen_pcm_case(rng):
     if rng.random() < 0.5:
         alpha = {'single': rng.choice([1.0, 0.5, 2.0])}
     else:
-        alpha = {'fixed': [[a, (rng.choice([0.0, 1.0, rng.uniform(0, 1)]) if lo else rng.choice([0.0, rng.uniform(-1, 1)]))]
+        alpha = {'fixed': [[a, (rng.choice([0.0, 1.0, 1, 2, rng.uniform(0, 1)]) if lo else rng.choice([0.0, 1, -1, 2, rng.uniform(-1, 1)]))]
                            for a in rng.sample(ALL, rng.randint(0, 6))]}
     big = None
     if rng.random() < 0.1:
@@ -248,7 +251,7 @@ def gen_dyn_case(rng):
 
 
 def gen_eqw_case(rng):
-    return dict(kind='eqw', scale=rng.choice([1.0, 2.0, 0.5, rng.uniform(0.1, 3)]),
+    return dict(kind='eqw', scale=rng.choice([1.0, 2.0, 0.5, 0.0, 0, 1, rng.uniform(0.1, 3)]),
                 weights=[[a, rng.uniform(-1, 1)] for a in rng.sample(ALL, rng.randint(1, 7))])
 
 
@@ -260,20 +263,25 @@ def run_sizer(case):
     dh = PriceDH({a: p for a, w, p in case['items']})
     res = dict(new='ok', out=None, qty=None)
     try:
-        s = cls(StubBroker(case['equity'], case['fee']), '1', dh, case['param'])
+        stub = StubBroker(case['equity'], case['fee'])
+        stub.current_dt = ts(MON_OPEN)
+        s = cls(stub, '1', dh, case['param'])
     except ValueError:
         res['new'] = 'ValueError'
         return res
     weights = collections.OrderedDict()
-    for h in case.get('history', []):
+    for hi, h in enumerate(case.get('history', [])):
         if not case.get('same_dict'):
             weights = collections.OrderedDict()
         weights.clear()
         weights.update((a, w) for a, w, p in h)
+        # the portfolio's equity was different when the earlier calls were made (the broker's clock has not moved)
+        stub.equity = case['equity'] * [0.5, 2.0, 1.25][hi % 3] if case.get('equity_moves') else case['equity']
         try:
             s(ts(MON_OPEN), weights)
         except Exception:
             pass
+    stub.equity = case['equity']
     if not case.get('same_dict'):
         weights = collections.OrderedDict()
     weights.clear()
